@@ -7,11 +7,11 @@ from permute.utils import binom_conf_interval
 
 COQ_HEADER = """From PV Require Import Lib.Base Model.ConfInt Corr.C12.
 Open Scope Q_scope."""
-RULE = ("grid n in 1..12 (quick; thorough 1..40) x all x x cl in {1/20, 1/5, 3/10, 1/2, 4/5, 9/10, 19/20, 39/40, 99/100} x alternatives, random "
-        "n<=40 (thorough 100), starting points p in {None, 0, 1/2, 1, x/n}, documented solver keywords (xtol, rtol, maxiter), a fifth of the grid cases preceded by a call with coarse tolerances (xtol 0.05 / 1e-3 / 0.01) that must not influence the certified plain call; the "
+RULE = ("grid n in 1..12 (quick; thorough 1..24) x all x x cl in {1/20, 1/5, 3/10, 1/2, 4/5, 9/10, 19/20, 39/40, 99/100} x alternatives, random "
+        "n<=40 (thorough 60), starting points p in {None, 0, 1/2, 1, x/n}, documented solver keywords (xtol, rtol, maxiter), a fifth of the grid cases preceded by a call with coarse tolerances (xtol 0.05 / 1e-3 / 0.01) that must not influence the certified plain call; the "
         "returned floats are turned into exact rationals and certified by the Gallina checker cp_check with brackets of width "
         "<= 3e-9 on a 1e-12 grid; non-trivial = 0<x<n so that both limits are solved numerically; distinct by (n,x,cl,alt,p,kwargs)")
-EXHAUSTIVE = {"quick": ["n<=12, all x, 6 levels, 3 alternatives"], "thorough": ["n<=40, all x, 6 levels, 3 alternatives"]}
+EXHAUSTIVE = {"quick": ["n<=6, all x, 9 levels, 3 alternatives (thinned above n=6 / n=3 for levels below 1/2)"], "thorough": ["n<=24, all x, 9 levels, 3 alternatives"]}
 ASSUMPTIONS = ["scipy brentq (xtol 2e-12) and binom.cdf are accurate enough that the solved limit is within 1e-9 of the exact one; what is certified is the bracket",
                "confidence levels are passed to the model as the nominal rationals (19/20 for 0.95)"]
 CLS = ["1/20", "1/5", "3/10", "1/2", "4/5", "9/10", "19/20", "39/40", "99/100"]   # levels below 1/2: one-sided limits lie beyond x/n
@@ -21,7 +21,7 @@ GRID = 10**12
 
 
 def cases(tier, rng, dist):
-    nmax = 12 if tier == "quick" else 40
+    nmax = 12 if tier == "quick" else 24     # exact tails at 1e-12-grid end points cost ~n^2 big-number operations per case
     for n in range(1, nmax + 1):
         for x in range(0, n + 1):
             for cl in CLS:
@@ -33,8 +33,8 @@ def cases(tier, rng, dist):
                         # a call with coarse documented solver tolerances FIRST: it must not influence the later plain call
                         c["warm"] = [{"xtol": 0.05}, {"xtol": 1e-3, "rtol": 1e-3}, {"xtol": 0.01, "maxiter": 60}][(n + x) % 3]
                     yield c
-    for _ in range(150 if tier == "quick" else 1500):
-        n = rng.randint(1, 40 if tier == "quick" else 100); x = rng.randint(0, n)
+    for _ in range(150 if tier == "quick" else 500):
+        n = rng.randint(1, 40 if tier == "quick" else 60); x = rng.randint(0, n)
         yield {"n": n, "x": x, "cl": rng.choice(CLS), "alt": rng.choice(list(CALT)), "p": rng.choice([None, None, "0", "1/2", "1", "x/n", "1/1000"]),
                "kw": rng.choice([None, None, {"xtol": 1e-10}, {"rtol": 1e-10}, {"maxiter": 200}, {"xtol": 1e-13, "maxiter": 500}])}
 
